@@ -823,7 +823,17 @@ func selftest(id string, n int) int {
 		fmt.Fprintf(os.Stderr, "unknown property %s\n", id)
 		return 2
 	}
-	bin, err := buildEngine(p.Engine, p.Race)
+	rc := selftestEngine(id, p.Engine, p.Race, n)
+	if p.AlsoEngine != "" {
+		if rc2 := selftestEngine(id, p.AlsoEngine, p.Race, n); rc2 > rc {
+			rc = rc2
+		}
+	}
+	return rc
+}
+
+func selftestEngine(id, engine string, race bool, n int) int {
+	bin, err := buildEngine(engine, race)
 	if err != nil {
 		fmt.Fprintf(os.Stderr, "HARNESS: %v\n", err)
 		return 2
@@ -880,7 +890,7 @@ func selftest(id string, n int) int {
 		}
 		wg.Wait()
 	}
-	fmt.Printf("selftest %s: %d seeds x 4 processes (GOMAXPROCS 1/4/16/1, batch order varied), mismatches=%d\n", id, len(ref), bad)
+	fmt.Printf("selftest %s (engine %s): %d seeds x 4 processes (GOMAXPROCS 1/4/16/1, batch order varied), mismatches=%d\n", id, engine, len(ref), bad)
 	if bad > 0 {
 		return 2
 	}
